@@ -389,6 +389,8 @@ func (p *GCP) authorizeToken(token string) (*gcpPayload, error) {
 	}
 
 	switch {
+	case claims.Subject == "":
+		return nil, errs.Unauthorized("gcp.authorizeToken; gcp token subject cannot be empty")
 	case claims.Google.ComputeEngine.InstanceID == "":
 		return nil, errs.Unauthorized("gcp.authorizeToken; gcp token google.compute_engine.instance_id cannot be empty")
 	case claims.Google.ComputeEngine.InstanceName == "":
